@@ -1,17 +1,22 @@
 #!/bin/sh
 # tools/try_seed.sh <seed dir> [check ids...]: apply a seeded change to a scratch worktree of /repo
 # (/tmp/seedtree, reset to /repo's HEAD first), confirm its demo fails there, run the named checks
-# (default: the seed's property) with VERIF_REPO pointing at it, and reset the worktree.
+# (default: the seed's property) from a private copy of /verif (/tmp/vseed, so that the regenerated
+# coq/Gen and the .vo files of the working copy are left alone) with VERIF_REPO pointing at the
+# scratch tree, and reset the worktree.
 d="$1"; shift
 T=/tmp/seedtree
-[ -d $T ] || git -C /repo worktree add -q $T HEAD
+V=/tmp/vseed
+[ -d $T ] || git -C /repo worktree add -q --detach $T HEAD
 git -C $T checkout -q --detach $(git -C /repo rev-parse HEAD) && git -C $T checkout -q -- . && git -C $T clean -fdq
+mkdir -p $V && rsync -a --delete --exclude .git --exclude replays --exclude coq/cases --exclude evidence /verif/ $V/
+mkdir -p $V/evidence $V/replays
 prop=$(python3 -c "import json,sys; print(json.load(open('$d/meta.json'))['property'])")
 checks="${*:-$prop}"
 git -C $T apply "$d/patch.diff" || { echo "PATCH DOES NOT APPLY: $d"; exit 2; }
 ( cd $T && PYTHONPATH=$T /venv/bin/python "$d/demo.py" >/dev/null 2>&1; echo "demo exit on changed tree: $?" )
 for c in $checks; do
-  ( cd /verif && VERIF_REPO=$T ./check $c 2>&1 | grep "VIOLATION\|KNOWN\|tier=" | sed "s/^/[$c] /" )
+  ( cd $V && VERIF_REPO=$T ./check $c 2>&1 | grep "VIOLATION\|KNOWN\|tier=" | sed "s/^/[$c] /" )
 done
 git -C $T checkout -q -- . && git -C $T clean -fdq
 ( cd $T && PYTHONPATH=$T /venv/bin/python "$d/demo.py" >/dev/null 2>&1; echo "demo exit on unchanged tree: $?" )
